@@ -85,10 +85,6 @@ def feasibility_rows(g):
          lambda v: v[2] == "Fixed" and fld(v, "range.start") != fld(v, "range.end") and (fld(v, "offset") != 0 or fld(v, "nth_from_start") != all_true or fld(v, "nth_from_end") != all_true),
          all(not (s.count("wday") == 2 and ("nth_entry" in s or "day_offset" in s)) for s in wr) and bool(wr),
          "`weekday_range` with two wday children has neither nth_entry nor day_offset; the builder then keeps all nth and offset 0"),
-        ("F3", DAY + "WeekDayRange",
-         lambda v: v[2] == "Fixed" and fld(v, "offset") != 0 and fld(v, "nth_from_start") == all_true and fld(v, "nth_from_end") == all_true,
-         all(("day_offset" not in s) or ("nth_entry" in s and s.index("nth_entry") < s.index("day_offset")) for s in wr),
-         "`weekday_range` has a day_offset child only after an nth_entry list (which clears nth_from_end unless negative entries are listed)"),
         ("F4", TIME + "TimeSpan",
          lambda v: fld(v, "open_end") is True and fld(v, "repeats")[0] == "some",
          all(not ("timespan_plus" in s and ("minute" in s or "hour_minutes" in s)) for s in ts) and bool(ts),
